@@ -28,7 +28,7 @@ RULE = ("embedded: ytk, ptk, cidar, ecoflex, plant - every item (exhaustive, 362
         "distinct = distinct registry contents."
         " Second session: files under a supported extension in another letter case (optional keys: listed or not, but coherent), file names of present stems as absent keys, Item.record read for every item, directory members judged against the files written, twin directories with the same file names, a cassette label repeated on its feature.")
 ASSUMPTIONS = ["directory entries that are typed GenBank plasmids have pairwise distinct stems", "the eLabFTW (network) registry is out of scope"]
-FLOORS = {"c20_regrown_members": 10, "c20_aborted_loads": 4, "c20_items_checked": 400, "c20_absent_keys_checked": 300, "c20_directories": 40, "c20_combinations": 30, "c20_shared_id_checks": 20, "c20_embedded_registries": 5}
+FLOORS = {"c20_regrown_members": 10, "c20_aborted_load_scenarios": 4, "c20_items_checked": 400, "c20_absent_keys_checked": 300, "c20_directories": 40, "c20_combinations": 30, "c20_shared_id_checks": 20, "c20_embedded_registries": 5}
 MUST_REACH = ["EmbeddedRegistry.__iter__", "EmbeddedRegistry.__len__", "FilesystemRegistry.__getitem__", "CombinedRegistry.add_registry"]
 NEEDS_REGISTRIES = True
 BUDGET_S = {"quick": 900, "thorough": 7200}
@@ -304,7 +304,10 @@ def execute(mat, ctx):
         path = pkg_resources.resource_filename(R._module, R._file)
         with tarfile.open(path) as tar:
             members = [m.name for m in tar.getmembers()]
-        stop = rng.randrange(len(members))
+        # (every other scenario fails at the very first record read: an implementation that parses one member per lookup
+        # can only be interrupted there)
+        stop = 0 if mat["n"] % 2 == 0 else rng.randrange(len(members))
+        ctx.count("c20_aborted_load_scenarios")
         orig = Bio.SeqIO.read
         state = {"n": 0}
 
